@@ -1474,3 +1474,14 @@ def fact_holds(fc, env, variants=None):
         rs = [all(x for x in (fact_holds(f, env, variants) for f in alt) if x is not None) for alt in fc[1]]
         return any(rs)
     return None
+
+
+def arith(e):
+    """normalise checked / unchecked arithmetic: `(AddWithOverflow(a, b)).0` and `Add(a, b)` both
+    become ('bin', 'Add', a, b); anything else -> None."""
+    e = peel(e)
+    if e[0] == "field" and e[2] == "0" and peel(e[1])[0] == "bin" and peel(e[1])[1].endswith("WithOverflow"):
+        e = peel(e[1])
+    if e[0] == "bin":
+        return ("bin", e[1].replace("WithOverflow", "").replace("Unchecked", ""), e[2], e[3])
+    return None
